@@ -3,6 +3,7 @@
 //! stream and the allocation ledger. See /verif/DESIGN.md section 3.2.
 #![allow(clippy::missing_safety_doc, clippy::too_many_arguments)]
 
+pub mod abi;
 pub mod builtins;
 pub mod choices;
 pub mod host;
